@@ -226,6 +226,194 @@ Qed.
 Close Scope Z_scope.
 
 (* ------------------------------------------------------------------------------------------ *)
+(* the single-qubit corrections recorded along the trace (generic ring)                        *)
+(* ------------------------------------------------------------------------------------------ *)
+Section StepsLocal.
+  Context {K : Type} (O : Ops K) (L : Laws O).
+  Add Ring Kring : (law_ring O L).
+  Infix "+" := (kadd O). Infix "*" := (kmul O). Infix "-" := (ksub O).
+  Notation "- a" := (kopp O a).
+  Notation z0 := (k0 O). Notation z1 := (k1 O). Notation hf := (khalf O). Notation ii := (ki O). Notation s2 := (ks2 O).
+  Notation M := (matrix (K:=K)).
+  Lemma half2d : (z1 + z1) * hf = z1.
+  Proof. transitivity (hf + hf); [ring | exact (law_half O L)]. Qed.
+  Lemma s22d : s2 * s2 = hf. Proof. exact (law_s2 O L). Qed.
+  Lemma cancel2d a b : (z1 + z1) * a = (z1 + z1) * b -> a = b.
+  Proof. intros H. transitivity (hf * ((z1 + z1) * a)); [ring [half2d]|]. rewrite H. ring [half2d]. Qed.
+  Lemma ii2d : ii * ii = - z1. Proof. exact (law_i O L). Qed.
+  Ltac close := first [ ring [ii2d] | ring [half2d s22d ii2d] | do 2 apply cancel2d; ring [half2d s22d ii2d]
+                      | do 4 apply cancel2d; ring [half2d s22d ii2d] ].
+  Notation T3 x0 y0 x1 y1 x2 y2 := (((x0, y0), (x1, y1), (x2, y2)) : trig3).
+
+  (* closed form of exp(i(x XX + y YY + z ZZ)): X-shaped *)
+  Definition ilit (t : trig3 (K:=K)) : M :=
+    let '((c0, s0), (c1, s1), (c2, s2')) := t in
+    let a := c2 + ii * s2' in let b := c2 - ii * s2' in
+    let p := c0 * c1 + s0 * s1 in let q := c0 * c1 - s0 * s1 in
+    let u := ii * (s0 * c1 - c0 * s1) in let v := ii * (s0 * c1 + c0 * s1) in
+    [[a * p; z0; z0; a * u]; [z0; b * q; b * v; z0]; [z0; b * v; b * q; z0]; [a * u; z0; z0; a * p]].
+  Lemma interaction_lit x0 y0 x1 y1 x2 y2 : interaction O (T3 x0 y0 x1 y1 x2 y2) = ilit (T3 x0 y0 x1 y1 x2 y2).
+  Proof. mat_entries ltac:(ring [ii2d]). Qed.
+
+  (* ---- each primitive step of the canonicaliser is a local identity (all cos/sin values, generic ring) ---- *)
+  Lemma shift_core x0 y0 x1 y1 x2 y2 k up : (k < 3)%nat ->
+    mmul O (interaction O (step_trig O (Shift k up) (T3 x0 y0 x1 y1 x2 y2))) (kron O (flip_pow O k up) (flip_pow O k up))
+    = mscale O (if up then - ii else ii) (interaction O (T3 x0 y0 x1 y1 x2 y2)).
+  Proof.
+    intros Hk. rewrite (interaction_lit x0 y0 x1 y1 x2 y2).
+    destruct k as [|[|[|k]]]; [| | |lia]; destruct up; cbn [step_trig tget tset]; rewrite interaction_lit; mat_entries ltac:(ring [ii2d]).
+  Qed.
+  Lemma negate_core x0 y0 x1 y1 x2 y2 k1 k2 : well_formed_step (Negate k1 k2) = true ->
+    mmul O (kron O (flipper O (other k1 k2)) (mid O 2))
+         (mmul O (interaction O (step_trig O (Negate k1 k2) (T3 x0 y0 x1 y1 x2 y2))) (kron O (flipper O (other k1 k2)) (mid O 2)))
+    = mscale O (- z1) (interaction O (T3 x0 y0 x1 y1 x2 y2)).
+  Proof.
+    intros H. rewrite (interaction_lit x0 y0 x1 y1 x2 y2).
+    destruct k1 as [|[|[|k1]]]; destruct k2 as [|[|[|k2]]]; try discriminate H;
+      cbn [step_trig tget tset fst snd]; rewrite interaction_lit; mat_entries ltac:(ring [ii2d]).
+  Qed.
+  Lemma swap_core x0 y0 x1 y1 x2 y2 k1 k2 : well_formed_step (Swap k1 k2) = true ->
+    mmul O (kron O (swapper O (other k1 k2)) (swapper O (other k1 k2)))
+         (mmul O (interaction O (step_trig O (Swap k1 k2) (T3 x0 y0 x1 y1 x2 y2))) (kron O (swapper O (other k1 k2)) (swapper O (other k1 k2))))
+    = interaction O (T3 x0 y0 x1 y1 x2 y2).
+  Proof.
+    intros H. rewrite (interaction_lit x0 y0 x1 y1 x2 y2).
+    destruct k1 as [|[|[|k1]]]; destruct k2 as [|[|[|k2]]]; try discriminate H;
+      cbn [step_trig tget tset fst snd]; rewrite interaction_lit; mat_entries close.
+  Qed.
+
+  (* ---- lifting to the recorded single-qubit corrections: matrices of known shape ---- *)
+  Definition is22 (m : M) : Prop := exists a b c d, m = [[a; b]; [c; d]].
+  Definition is44 (m : M) : Prop :=
+    exists a0 a1 a2 a3 b0 b1 b2 b3 c0 c1 c2 c3 d0 d1 d2 d3,
+      m = [[a0; a1; a2; a3]; [b0; b1; b2; b3]; [c0; c1; c2; c3]; [d0; d1; d2; d3]].
+  Ltac ex22 H := destruct H as (? & ? & ? & ? & ->).
+  Ltac ex44 H := destruct H as (? & ? & ? & ? & ? & ? & ? & ? & ? & ? & ? & ? & ? & ? & ? & ? & ->).
+  Ltac mk := repeat eexists; reflexivity.
+  Lemma is22_mmul a b : is22 a -> is22 b -> is22 (mmul O a b).
+  Proof. intros Ha Hb. ex22 Ha. ex22 Hb. mk. Qed.
+  Lemma is22_mid : is22 (mid O 2). Proof. mk. Qed.
+  Lemma is22_flipper k : is22 (flipper O k). Proof. destruct k as [|[|k]]; mk. Qed.
+  Lemma is22_flip_pow k up : is22 (flip_pow O k up). Proof. destruct up; destruct k as [|[|k]]; mk. Qed.
+  Lemma is22_swapper k : is22 (swapper O k). Proof. destruct k as [|[|k]]; mk. Qed.
+  Lemma is44_kron a b : is22 a -> is22 b -> is44 (kron O a b).
+  Proof. intros Ha Hb. ex22 Ha. ex22 Hb. mk. Qed.
+  Lemma is44_mmul a b : is44 a -> is44 b -> is44 (mmul O a b).
+  Proof. intros Ha Hb. ex44 Ha. ex44 Hb. mk. Qed.
+  Lemma is44_mscale c a : is44 a -> is44 (mscale O c a).
+  Proof. intros Ha. ex44 Ha. mk. Qed.
+  Lemma is44_interaction t : is44 (interaction O t).
+  Proof. destruct t as [[[x0 y0] [x1 y1]] [x2 y2]]. rewrite interaction_lit. mk. Qed.
+  Hint Resolve is22_mmul is22_mid is22_flipper is22_flip_pow is22_swapper is44_kron is44_mmul is44_mscale is44_interaction : shape.
+
+  Lemma assoc44 a b c : is44 a -> is44 b -> is44 c -> mmul O (mmul O a b) c = mmul O a (mmul O b c).
+  Proof. intros Ha Hb Hc. ex44 Ha. ex44 Hb. ex44 Hc. mat_entries ltac:(ring). Qed.
+  Lemma kron_mix a b c d : is22 a -> is22 b -> is22 c -> is22 d ->
+    kron O (mmul O a b) (mmul O c d) = mmul O (kron O a c) (kron O b d).
+  Proof. intros Ha Hb Hc Hd. ex22 Ha. ex22 Hb. ex22 Hc. ex22 Hd. mat_entries ltac:(ring). Qed.
+  Lemma mmul_mid_r a : is22 a -> mmul O a (mid O 2) = a.
+  Proof. intros Ha. ex22 Ha. mat_entries ltac:(ring). Qed.
+  Lemma mmul_mid_l a : is22 a -> mmul O (mid O 2) a = a.
+  Proof. intros Ha. ex22 Ha. mat_entries ltac:(ring). Qed.
+  Lemma mscale_mmul_l c a b : is44 a -> is44 b -> mmul O (mscale O c a) b = mscale O c (mmul O a b).
+  Proof. intros Ha Hb. ex44 Ha. ex44 Hb. mat_entries ltac:(ring). Qed.
+  Lemma mscale_mmul_r c a b : is44 a -> is44 b -> mmul O a (mscale O c b) = mscale O c (mmul O a b).
+  Proof. intros Ha Hb. ex44 Ha. ex44 Hb. mat_entries ltac:(ring). Qed.
+  Lemma mscale_mscale c d a : is44 a -> mscale O c (mscale O d a) = mscale O (c * d) a.
+  Proof. intros Ha. ex44 Ha. mat_entries ltac:(ring). Qed.
+  Lemma mscale_one a : is44 a -> mscale O z1 a = a.
+  Proof. intros Ha. ex44 Ha. mat_entries ltac:(ring). Qed.
+  Lemma mmul_id44_l a : is44 a -> mmul O (kron O (mid O 2) (mid O 2)) a = a.
+  Proof. intros Ha. ex44 Ha. mat_entries ltac:(ring). Qed.
+  Lemma mmul_id44_r a : is44 a -> mmul O a (kron O (mid O 2) (mid O 2)) = a.
+  Proof. intros Ha. ex44 Ha. mat_entries ltac:(ring). Qed.
+
+  Definition lit_book (b : book (K:=K)) : Prop := is22 (bk_l0 b) /\ is22 (bk_l1 b) /\ is22 (bk_r0 b) /\ is22 (bk_r1 b).
+  Lemma lit_book0 : lit_book (book0 O).
+  Proof. repeat split; apply is22_mid. Qed.
+  Lemma lit_book_step s b : lit_book b -> lit_book (step_book O s b).
+  Proof. intros (H0 & H1 & H2 & H3). destruct s; repeat split; simpl; auto with shape. Qed.
+
+  Ltac sh := auto 8 with shape.
+  Theorem step_local s b t : well_formed_step s = true -> lit_book b ->
+    implied O (step_book O s b) (step_trig O s t) = implied O b t.
+  Proof.
+    intros W (H0 & H1 & H2 & H3). destruct t as [[[x0 y0] [x1 y1]] [x2 y2]].
+    unfold implied. destruct s as [k up|k1 k2|k1 k2]; cbn [step_book bk_ph bk_l0 bk_l1 bk_r0 bk_r1].
+    - (* shift *)
+      assert (Hk : (k < 3)%nat) by (apply Nat.ltb_lt; exact W).
+      rewrite kron_mix by sh. rewrite <- (assoc44 (interaction O _)) by sh. rewrite shift_core by exact Hk.
+      rewrite mscale_mmul_l, mscale_mmul_r, mscale_mscale by sh. f_equal. destruct up; ring [ii2d].
+    - (* negate *)
+      rewrite <- (mmul_mid_r (bk_l0 b)) at 1 by exact H0. rewrite <- (mmul_mid_l (bk_r0 b)) at 1 by exact H2.
+      rewrite !kron_mix by sh.
+      rewrite (assoc44 (kron O (bk_l1 b) (bk_l0 b))) by sh.
+      rewrite <- (assoc44 (interaction O _)) by sh. rewrite <- (assoc44 (kron O (flipper O _) _)) by sh.
+      rewrite negate_core by exact W.
+      rewrite mscale_mmul_l, mscale_mmul_r, mscale_mscale by sh. f_equal. ring.
+    - (* swap *)
+      rewrite !kron_mix by sh.
+      rewrite (assoc44 (kron O (bk_l1 b) (bk_l0 b))) by sh.
+      rewrite <- (assoc44 (interaction O _)) by sh. rewrite <- (assoc44 (kron O (swapper O _) _)) by sh.
+      rewrite swap_core by exact W. reflexivity.
+  Qed.
+
+  Definition run_trig (steps : list step) (t : trig3 (K:=K)) : trig3 := fold_left (fun t s => step_trig O s t) steps t.
+  Theorem run_local steps : forall b t, forallb well_formed_step steps = true -> lit_book b ->
+    implied O (run_book O steps b) (run_trig steps t) = implied O b t.
+  Proof.
+    induction steps as [|s steps IH]; intros b t W Hb; [reflexivity|].
+    simpl in W. apply andb_true_iff in W. destruct W as [Ws W].
+    cbn [run_book run_trig fold_left]. fold (run_book O steps (step_book O s b)). fold (run_trig steps (step_trig O s t)).
+    rewrite IH by (auto using lit_book_step). apply step_local; assumption.
+  Qed.
+  Lemma implied_book0 t : implied O (book0 O) t = interaction O t.
+  Proof.
+    unfold implied, book0. cbn [bk_ph bk_l0 bk_l1 bk_r0 bk_r1].
+    rewrite mmul_id44_l, mmul_id44_r, mscale_one by sh. reflexivity.
+  Qed.
+
+  (* ---- the whole routine: for any assignment f of (cos, sin) pairs to coefficients that respects the three
+     symmetries the routine uses (shift by pi/2 up and down, negation), the recorded decomposition has the
+     same matrix as the input interaction ---- *)
+  Definition trig_respects (D : Z) (f : Z -> K * K) : Prop :=
+    (forall a, f (a + 2 * D)%Z = (- snd (f a), fst (f a))) /\
+    (forall a, f (a + - (2 * D))%Z = (snd (f a), - fst (f a))) /\
+    (forall a, f (- a)%Z = (fst (f a), - snd (f a))).
+  Definition tv (f : Z -> K * K) (v : vec3) : trig3 := let '(x, y, z) := v in (f x, f y, f z).
+  Lemma step_trig_follows D f s v : trig_respects D f -> well_formed_step s = true ->
+    step_trig O s (tv f v) = tv f (step_v D s v).
+  Proof.
+    intros (Hu & Hd & Hn) W. destruct v as [[x y] z].
+    destruct s as [k up|k1 k2|k1 k2].
+    - destruct k as [|[|[|k]]]; try discriminate W; destruct up; cbn [step_trig step_v tv tget tset vget vset];
+        rewrite ?Hu, ?Hd; try reflexivity;
+        match goal with |- context [f ?a] => destruct (f a) end; reflexivity.
+    - destruct k1 as [|[|[|k1]]]; destruct k2 as [|[|[|k2]]]; try discriminate W;
+        cbn [step_trig step_v tv tget tset vget vset fst snd]; rewrite !Hn; reflexivity.
+    - destruct k1 as [|[|[|k1]]]; destruct k2 as [|[|[|k2]]]; try discriminate W; reflexivity.
+  Qed.
+  Lemma run_trig_follows D f steps : trig_respects D f -> forall v, forallb well_formed_step steps = true ->
+    run_trig steps (tv f v) = tv f (run_v D steps v).
+  Proof.
+    intros Hf. induction steps as [|s steps IH]; intros v W; [reflexivity|].
+    simpl in W. apply andb_true_iff in W. destruct W as [Ws W].
+    cbn [run_trig run_v fold_left]. rewrite (step_trig_follows D f s v Hf Ws). apply IH. exact W.
+  Qed.
+End StepsLocal.
+
+(* D: for EVERY input vector, the decomposition the routine records (phase, left/right single-qubit factors,
+   canonical coefficients) has the same matrix as the input interaction exp(i(x XX + y YY + z ZZ)) *)
+Theorem kak_canon_steps_local : forall K (O : Ops K), Laws O -> forall D A f v, trig_respects O D f ->
+  implied O (run_book O (kak_canon_steps D A v) (book0 O)) (tv f (kak_canon_v D A v)) = interaction O (tv f v).
+Proof.
+  intros K O L D A f v Hf. rewrite <- kak_canon_trace_replays.
+  rewrite <- (run_trig_follows O D f _ Hf v (kak_canon_steps_wf D A v)).
+  rewrite (run_local O L) by (try apply kak_canon_steps_wf; apply lit_book0).
+  apply (implied_book0 O L).
+Qed.
+
+(* ------------------------------------------------------------------------------------------ *)
 (* validators                                                                                  *)
 (* ------------------------------------------------------------------------------------------ *)
 Lemma list_eqb_sound {A} (e : A -> A -> bool) : (forall a b, e a b = true -> a = b) ->
@@ -301,3 +489,31 @@ Example count_example :
 Proof. vm_compute. repeat split. Qed.
 Example chamber_example : in_chamber 1000%Z 0%Z 1%Z (kak_canon_v 1000%Z 1%Z (3700, -1000, 2250)%Z).
 Proof. apply in_chamber_b_sound. vm_compute. reflexivity. Qed.
+
+(* the hypothesis of kak_canon_steps_local is satisfiable: cos/sin of multiples of pi/4 in Q(zeta_8) (D = 1) *)
+Definition k8s : K8 := ks2 K8Ops.
+Definition k8n (x : K8) : K8 := kopp K8Ops x.
+Definition f8 (a : Z) : K8 * K8 :=
+  match (a mod 8)%Z with
+  | 0%Z => (k1 K8Ops, k0 K8Ops) | 1%Z => (k8s, k8s) | 2%Z => (k0 K8Ops, k1 K8Ops) | 3%Z => (k8n k8s, k8s)
+  | 4%Z => (k8n (k1 K8Ops), k0 K8Ops) | 5%Z => (k8n k8s, k8n k8s) | 6%Z => (k0 K8Ops, k8n (k1 K8Ops)) | _ => (k8s, k8n k8s)
+  end.
+Lemma pair_k8_eq (p q : K8 * K8) : k8_eqb (fst p) (fst q) && k8_eqb (snd p) (snd q) = true -> p = q.
+Proof.
+  destruct p, q. simpl. intros H. apply andb_true_iff in H. destruct H as [H1 H2].
+  f_equal; apply k8_eqb_sound; assumption.
+Qed.
+Lemma mod8_cases a : let r := (a mod 8)%Z in (r = 0 \/ r = 1 \/ r = 2 \/ r = 3 \/ r = 4 \/ r = 5 \/ r = 6 \/ r = 7)%Z.
+Proof. intros r. pose proof (Z.mod_pos_bound a 8 ltac:(lia)). subst r. lia. Qed.
+Example trig_respects_example : trig_respects K8Ops 1 f8.
+Proof.
+  repeat split; intros a; unfold f8.
+  - rewrite <- Z.add_mod_idemp_l by lia.
+    destruct (mod8_cases a) as [H|[H|[H|[H|[H|[H|[H|H]]]]]]]; rewrite H; apply pair_k8_eq; vm_compute; reflexivity.
+  - rewrite <- Z.add_mod_idemp_l by lia.
+    destruct (mod8_cases a) as [H|[H|[H|[H|[H|[H|[H|H]]]]]]]; rewrite H; apply pair_k8_eq; vm_compute; reflexivity.
+  - rewrite (Z.div_mod a 8) at 1 by lia.
+    replace (- (8 * (a / 8) + a mod 8))%Z with (- (a mod 8) + (- (a / 8)) * 8)%Z by ring.
+    rewrite Z_mod_plus_full.
+    destruct (mod8_cases a) as [H|[H|[H|[H|[H|[H|[H|H]]]]]]]; rewrite H; apply pair_k8_eq; vm_compute; reflexivity.
+Qed.
